@@ -548,12 +548,16 @@ class Machine:
         converter = self._convert_units_fn(from_mode, to_mode)
         self._reg.store_color(converter(original_color))
 
+        # A time-of-day pattern in the time register has no units.
+        time_is_pattern = isinstance(self._reg.time, TimePattern)
         if to_mode is UnitMode.RAW:
             self._reg.duration = units.time_raw(self._reg.duration)
-            self._reg.time = units.time_raw(self._reg.time)
+            if not time_is_pattern:
+                self._reg.time = units.time_raw(self._reg.time)
         elif from_mode is UnitMode.RAW:
             self._reg.duration = units.time_logical(self._reg.duration)
-            self._reg.time = units.time_logical(self._reg.time)
+            if not time_is_pattern:
+                self._reg.time = units.time_logical(self._reg.time)
 
     @staticmethod
     def _convert_units_fn(from_mode, to_mode):
